@@ -56,7 +56,7 @@ def make_callback(P):
 
 def build(spec, P):
     e = catalog.ENTRIES[spec["entry"]]
-    g = catalog.Choices(replay=spec["choices"], seed_value=spec.get("seed", 0), callback=make_callback(P) if e["cb"] else None)
+    g = catalog.Choices(replay=spec["choices"], seed_value=spec.get("seed", 0), callback=make_callback(P) if e["cb"] else None, dtype=spec.get("dtype"))
     call = e["build"](g)
     call.setdefault("exempt", [])
     return call, g
@@ -202,7 +202,7 @@ def run_workload(spec, P, rng, tier, cnt):
                 (fp, f"{spec['entry']}: argument {path} {kind} after fault {r['fired'][2]} at backend event {k} ({r['fired'][1]}); call {r['outcome']}",
                  dict(spec, fault={"event": k, "kind": r["fired"][2]}))
             )  # fmt: skip
-    dg = digest_obj([spec["entry"], spec["choices"], spec.get("tenalg"), n, base["names"], base["transient"], base["outcome"], outcomes])
+    dg = digest_obj([spec["entry"], spec["choices"], spec.get("tenalg"), spec.get("dtype"), n, base["names"], base["transient"], base["outcome"], outcomes])
     return viols, dg, n, len(pts)
 
 
@@ -210,7 +210,8 @@ def gen_spec(rng, r, ents):
     e = ents[r % len(ents)]
     g = catalog.Choices(rng=rng, seed_value=rng.randrange(3), callback=(lambda *a, **k: None) if e["cb"] else None)
     e["build"](g)  # only to record a choice sequence of the right length
-    return {"entry": e["name"], "choices": list(g.rec), "seed": g.seed_value, "tenalg": "einsum" if rng.random() < 0.3 else "core"}
+    return {"entry": e["name"], "choices": list(g.rec), "seed": g.seed_value, "tenalg": "einsum" if rng.random() < 0.3 else "core",
+            "dtype": "float32" if rng.random() < 0.15 else "float64"}
 
 
 def worker(chunk):
@@ -234,7 +235,8 @@ def worker(chunk):
             raise
         cnt.inc("runs")
         cnt.inc("entry:" + spec["entry"])
-        distinct.add(stable_hash(spec["entry"], tuple(spec["choices"]), spec["seed"], spec["tenalg"]))
+        distinct.add(stable_hash(spec["entry"], tuple(spec["choices"]), spec["seed"], spec["tenalg"], spec["dtype"]))
+        cnt.inc("dtype:" + spec["dtype"])
         cnt.inc("tenalg:" + spec["tenalg"])
         for fp, text, rspec in vs:
             k = per.get(fp, 0)
@@ -361,6 +363,7 @@ def make_replay(spec, fp, seed, run_idx):
         "choices": spec["choices"],
         "seed": spec.get("seed", 0),
         "tenalg": spec.get("tenalg", "core"),
+        "dtype": spec.get("dtype", "float64"),
         "fault": spec.get("fault"),
         "faults": [spec["fault"]] if spec.get("fault") else [],
         "schedule": [],
@@ -379,7 +382,7 @@ def replay_file(path):
     with open(path) as f:
         rp = json.load(f)
     P = proxy.get()
-    spec = {"entry": rp["entry"], "choices": rp["choices"], "seed": rp["seed"], "fault": rp["fault"], "tenalg": rp.get("tenalg", "core")}
+    spec = {"entry": rp["entry"], "choices": rp["choices"], "seed": rp["seed"], "fault": rp["fault"], "tenalg": rp.get("tenalg", "core"), "dtype": rp.get("dtype", "float64")}
     r = execute(spec, P, fault=rp["fault"], observe=True)
     fps = sorted(fingerprint(spec["entry"], p, k, r["tags"]) for p, k in r["diffs"])
     dg = digest_obj([r["names"], r["outcome"], [list(d) for d in r["diffs"]]])
@@ -432,6 +435,7 @@ def coverage(agg, wall):
         "fault_free_outcomes": {k.split(":", 1)[1]: v for k, v in sorted(cnt.items()) if k.startswith("outcome_fault_free:")},
         "rare_condition_probes": {k[len("probe:") :]: v for k, v in sorted(cnt.items()) if k.startswith("probe:")},
         "entries": {k[len("entry:") :]: v for k, v in sorted(cnt.items()) if k.startswith("entry:")},
+        "dtype_of_workloads": {k[len("dtype:") :]: v for k, v in sorted(cnt.items()) if k.startswith("dtype:")},
         "tenalg_backend_of_workloads": {k[len("tenalg:") :]: v for k, v in sorted(cnt.items()) if k.startswith("tenalg:")},
         "violating_workloads": cnt.get("violating_runs", 0),
         "exhaustive": False,
